@@ -242,3 +242,57 @@ def _call_map_games(inp):
 
 CONTRACTS[GE + ":map_games"].gen = _gen_map_games
 CONTRACTS[GE + ":map_games"].call = _call_map_games
+
+
+# ====================================================================== allocation sites of the scratch arrays (C13, C07)
+from pyvc.spec import DTYPE, OBJ, PYINT, Summary  # noqa: E402
+
+lemma("even_prod", {"n": "int"}, ["n >= 0"], "(n * (n - 1)) % 2 == 0", induct="n", base="0")
+
+_int_range_to_dtype = contract(
+    "<opaque>:int_range_to_dtype", params={"lo": PYINT, "hi": PYINT}, returns=DTYPE,
+    ensures=["result[0] <= lo and result[1] >= hi and result[1] <= 2**63 - 1 and result[0] < 0"],
+    assumptions=["E1: moptipy int_range_to_dtype(lo, hi) with lo < 0 returns a signed dtype containing [lo, hi]"])
+
+# class invariant of ttp.errors.Errors: what count_errors needs from the two scratch arrays
+_ERR_INV = [
+    "n >= 2 and rounds >= 1",
+    "2 * len(self.__temp_1) == n * (n - 1)",
+    "shape(self.__temp_2, 0) == n and shape(self.__temp_2, 1) == n",
+    "dtype_lo(self.__temp_1) <= -1 and dtype_hi(self.__temp_1) >= (n - 1) * rounds and dtype_hi(self.__temp_1) <= 2**63 - 1",
+    "dtype_lo(self.__temp_2) <= -1 and dtype_hi(self.__temp_2) >= (n - 1) * rounds and dtype_hi(self.__temp_2) <= 2**63 - 1",
+]
+
+contract(
+    ER + ":Errors.__init__",
+    props="C13 C07",
+    params={"instance": OBJ},
+    ghosts={"n": PYINT, "rounds": PYINT},
+    i64=False,
+    dtypes={"GP": None},
+    attrs={"instance.n_cities": "n", "instance.rounds": "rounds", "instance.game_plan_dtype": "(GP_lo, GP_hi)"},
+    # ttp.Instance: even number of teams >= 2, rounds in 1..100, game_plan_dtype = int_range_to_dtype(-n, n)
+    requires=["n >= 2 and rounds >= 1", "GP_lo <= -n and GP_hi >= n"],
+    summaries={"if #0": Summary({}, [], "isinstance check"), "call super().__init__ #0": Summary({}, [], "Objective.__init__")},
+    opaque={"int_range_to_dtype": _int_range_to_dtype},
+    lemmas_at={"entry": ["even_prod(n)"]},
+    ensures=[tag("C13 C07", f"class-invariant-{k}", c) for k, c in enumerate(_ERR_INV)],
+)
+
+contract(
+    ER + ":Errors.evaluate",
+    props="C13 C07",
+    params={"x": A2("Y")},
+    ghosts={"n": PYINT, "rounds": PYINT, "hsmin": PYINT, "hsmax": PYINT, "asmin": PYINT, "asmax": PYINT, "smin": PYINT, "smax": PYINT},
+    fields={"self.__temp_1": A1("T1", uninit=True), "self.__temp_2": A2("T2", uninit=True)},
+    i64=False,
+    attrs={"x.instance": "None", "inst.home_streak_min": "hsmin", "inst.home_streak_max": "hsmax", "inst.away_streak_min": "asmin",
+           "inst.away_streak_max": "asmax", "inst.separation_min": "smin", "inst.separation_max": "smax"},
+    # class invariant (established by __init__) + what GamePlanSpace.validate establishes about x
+    requires=_ERR_INV + ["shape(x, 0) == (n - 1) * rounds and shape(x, 1) == n",
+                         "forall(d, 0, (n - 1) * rounds, forall(t, 0, n, -n <= x[d, t] and x[d, t] <= n))",
+                         "Y_lo < 0 and Y_hi <= 2**63 - 1", "T1_lo == T2_lo and T1_hi == T2_hi"],
+    calls={"count_errors": {"n": "n", "D": "(n - 1) * rounds"}},
+    returns=INT,
+    ensures=[tag("C07", "nonneg", "result >= 0")],
+)
